@@ -145,7 +145,8 @@ def judge_chain(ops_in: list[Any], result: Any, scalars: list[float], tags: list
 def case(rng: Any, ctx: Ctx, index: int) -> None:
     gen.begin_case(rng)
     names = sorted(patterns.PATTERNS)
-    rr = [('blocks', f) for f in range(4)] + [(n, None) for n in names if n != 'blocks']
+    rr = ([('blocks', f) for f in range(4)] + [('nearmiss', f) for f in range(patterns.N_NEARMISS)]
+          + [(n, None) for n in names if n not in ('blocks', 'nearmiss')])
     k = 1 + int(rng.integers(3) == 0) + int(rng.integers(6) == 0)
     maxctx = 14 if ctx.thorough else 6
 
@@ -156,6 +157,8 @@ def case(rng: Any, ctx: Ctx, index: int) -> None:
             nm, form = rr[slot] if j == 0 else (names[int(rng.integers(len(names)))], None)
             if nm == 'blocks' and form is not None:
                 tag, seg = patterns.p_blocks(rng, form)
+            elif nm == 'nearmiss' and form is not None:
+                tag, seg = patterns.p_nearmiss(rng, form)
             else:
                 tag, seg = patterns.PATTERNS[nm](rng)
             segs.append(seg)
